@@ -13,8 +13,10 @@ CONSTANTS N,            \* number of non-genesis blocks
           MaxCrash,     \* crashes per behaviour
           Gaps          \* BOOLEAN: heights may skip
 
-VARIABLES tree, st, nDel, nCrash, startHead, heads, crashed
-vars == <<tree, st, nDel, nCrash, startHead, heads, crashed>>
+VARIABLES tree, st, nDel, nCrash, startHead, heads, crashed, viaFork
+vars == <<tree, st, nDel, nCrash, startHead, heads, crashed, viaFork>>
+
+CONSTANT Forks       \* BOOLEAN: also explore fork switches of the sync processor
 
 TxUniverse == {1, 2}
 
@@ -22,7 +24,7 @@ Trees == TreesUpTo(N, Gaps)
 
 Init == /\ tree \in Trees
         /\ st = InitState(tree)
-        /\ nDel = 0 /\ nCrash = 0 /\ startHead = 0 /\ heads = <<0>> /\ crashed = FALSE
+        /\ nDel = 0 /\ nCrash = 0 /\ startHead = 0 /\ heads = <<0>> /\ crashed = FALSE /\ viaFork = FALSE
 
 DeliverAct(b) ==
   /\ st.todo = <<>> /\ nDel < MaxDeliver
@@ -31,20 +33,32 @@ DeliverAct(b) ==
        /\ heads' = HeadsOfCall(tree, s0)
   /\ startHead' = st.latest
   /\ nDel' = nDel + 1
-  /\ crashed' = FALSE
+  /\ crashed' = FALSE /\ viaFork' = FALSE
+  /\ UNCHANGED <<tree, nCrash>>
+
+(* the sync processor switches to the fork a -> ... -> x (a on the local chain) *)
+ForkAct(a, x) ==
+  /\ Forks /\ st.todo = <<>> /\ nDel < MaxDeliver
+  /\ a \in Ancestors(tree, x) /\ a # x /\ a \in st.hashDB
+  /\ LET s0 == BeginFork(tree, st, PathDown(tree, a, x)) IN
+       /\ st' = s0
+       /\ heads' = HeadsOfCall(tree, s0)
+  /\ startHead' = st.latest
+  /\ nDel' = nDel + 1
+  /\ crashed' = FALSE /\ viaFork' = TRUE
   /\ UNCHANGED <<tree, nCrash>>
 
 StepAct == /\ st.todo # <<>>
            /\ st' = Step(tree, st)
-           /\ UNCHANGED <<tree, nDel, nCrash, startHead, heads, crashed>>
+           /\ UNCHANGED <<tree, nDel, nCrash, startHead, heads, crashed, viaFork>>
 
 CrashAct == /\ st.todo # <<>> /\ nCrash < MaxCrash
             /\ st' = CrashState(st)
             /\ nCrash' = nCrash + 1
             /\ crashed' = TRUE
-            /\ UNCHANGED <<tree, nDel, startHead, heads>>
+            /\ UNCHANGED <<tree, nDel, startHead, heads, viaFork>>
 
-Next == (\E b \in 1..N : DeliverAct(b)) \/ StepAct \/ CrashAct
+Next == (\E b \in 1..N : DeliverAct(b)) \/ (\E a \in 0..N, x \in 1..N : ForkAct(a, x)) \/ StepAct \/ CrashAct
 Spec == Init /\ [][Next]_vars
 
 Quiescent == st.todo = <<>>
@@ -54,7 +68,9 @@ InvIndex          == Quiescent => (HeightIndexAgrees(tree, st) /\ NothingAboveHe
 InvHeadState      == Quiescent => HeadStateDurable(tree, st)
 InvMarks          == Quiescent => NoMarks(tree, st)
 InvExecuted       == Quiescent => ExecutedAgrees(tree, st)
-InvWeightMonotone == (Quiescent /\ ~crashed) => NotLower(tree, st.latest, startHead)
+InvWeightMonotone == (Quiescent /\ ~crashed /\ ~viaFork) => NotLower(tree, st.latest, startHead)
+(* the same clause for head changes made by the fork-switch path (outside C05's quantifier) *)
+InvWeightMonotoneFork == (Quiescent /\ ~crashed /\ viaFork) => NotLower(tree, st.latest, startHead)
 InvCrashHeadStrict == (Quiescent /\ crashed) => st.latest \in CrashHeadStrict(tree, heads)
 InvCrashHeadWeak   == (Quiescent /\ crashed) => st.latest \in CrashHeadWeak(tree, heads)
 =============================================================================
